@@ -249,6 +249,24 @@ def post_ref(run, snap, res, args, kwargs):
         corrections.append("rmask")
     exact = not corrections
     truth = (run.case or {}).get("cohort")
+    if sexes is None and truth and truth.get("is_xx"):
+        # the helper that is handed the sexes is not on this tree's path: take the cohort's own (given, or true and -- by construction of the
+        # cohorts -- inferable; a wrong inference then shows as a matrix row that fits no sample)
+        sexes = dict(truth["is_xx"])
+        run.extra["exact-clause:sexes-from-the-cohort-truth"] += 1
+    if exact and sexes is not None and "logr" not in cap:
+        # nor is the matrix observable: judge the result itself, bin by bin, against the estimator of the model rows
+        v = _exact_at_boundary(T, A, sexes, male_ref, snap, key, ref_log2, ref_spread)
+        if v == "nan":
+            run.ood(mon + "[exact]", "nan-log2")
+        elif v:
+            return run.violate(mon + "[exact]", "boundary:" + v[0], v[1], wit)
+        else:
+            run.held(mon + "[exact]", f"exact-at-boundary:samples={len(T)}")
+        exact = False
+        if truth:
+            _semantic(run, truth, key, ref_log2, ref_spread, sexes, male_ref, corrections, wit)
+        return run.held(mon, "ref:exact-at-boundary" + f":n={len(T)}")
     # ---- exact clause: matrix rows and estimator, end to end
     if exact and sexes is not None and "logr" in cap:
         ids = [fbase(f) for f in sorted(snap["tfiles"], key=fbase)]
@@ -312,6 +330,29 @@ def post_ref(run, snap, res, args, kwargs):
     if truth:
         _semantic(run, truth, key, ref_log2, ref_spread, sexes, male_ref, corrections, wit)
     run.held(mon, "ref:" + ("exact" if exact else "+".join(corrections)) + f":n={len(T)}")
+
+
+def _exact_at_boundary(T, A, sexes, male_ref, snap, key, ref_log2, ref_spread):
+    """The exact clause without a view of the matrix: per block, the result's log2/spread must be the estimators of
+    [neutral pseudo-sample] + [each sample's centred, sex-shifted row]; either centring convention is accepted (consistently)."""
+    ids = [fbase(f) for f in sorted(snap["tfiles"], key=fbase)]
+    blocks = [(T, True)] + ([(A, False)] if A and A[0]["n"] else [])
+    for grp, skip_low in blocks:
+        if any(v != v for t in grp for v in t["log2"]):
+            return "nan"
+        cols_key = [b[:3] for b in _bins(grp[0])]
+        loc = np.array([ref_log2[k] for k in cols_key])
+        spr = np.array([ref_spread[k] for k in cols_key])
+        first = None
+        for conv in (skip_low, not skip_low):
+            rows = [flat_row(grp[0], male_ref)] + [model_row(t, conv, bool(sexes.get(ids[k])), male_ref) for k, t in enumerate(grp)]
+            v, _judged, _ill = judge_columns(np.vstack(rows), loc, spr, "reference-log2")
+            if not v:
+                break
+            first = first or v
+        else:
+            return first
+    return None
 
 
 def _semantic(run, truth, key, ref_log2, ref_spread, sexes, male_ref, corrections, wit):
